@@ -15,7 +15,7 @@ from mc import alphabet as A
 from mc import core, pipeline, program
 
 PROP = "C11"
-SYMS = ["a", "B", "1", "_", "-", " ", ".", '"', "'", "\\", "é", "я", "日"]
+SYMS = ["a", "B", "1", "_", "-", " ", ".", '"', "'", "\\", "é", "я", "日", "\u2028"]
 CONFIGS = [("pydantic", {}), ("sqlmodel", {}), ("attrs", {"meta": True}), ("dataclasses", {"meta": True}), ("base", {})]
 POOL = ["a", "b", "ab", "a-b", "a_b", "a b", "aB", "Ab", "a.b", "class", "class_", "list", "List", "id", "pk", "1a", "a1", "one_a",
         "é", "e", "я", "ia", "日", "ri", "a\"b", "a'b", "a\\b", "type", "Type", "field", "Field", "self", "None", "none", "schema",
@@ -59,6 +59,8 @@ def _cases(tier):
     for k in _keys(tier):
         yield {"mode": "field", "keys": [k]}
         yield {"mode": "class", "keys": [k]}
+        if len(k) <= 2 or k in A.KEY_WORDS:
+            yield {"mode": "nested_field", "keys": [k]}
     for a, b in itertools.combinations(POOL, 2):
         yield {"mode": "field", "keys": [a, b]}
         yield {"mode": "class", "keys": [a, b]}
@@ -83,9 +85,11 @@ def _samples(case):
         o = {k: i + 1 for i, k in enumerate(case["keys"])}
         o["zz"] = 0
         return [o] if case["mode"] == "field" else [o, {"zz": 1}]
+    if case["mode"] == "nested_field":     # the renamed key lives in a non-root class (nested layout goes through indentation)
+        return [{"inner": {case["keys"][0]: 1, "zz": 0}, "top": 1}]
     o = {}
     for i, k in enumerate(case["keys"]):
-        o[k] = {f"f{i}": 1, "g": "x"} if i % 2 == 0 else [{f"f{i}": 1, "h": [1]}]
+        o[k] = {f"f{i}": 1, "g": "x", "when": "2020-01-01"} if i % 2 == 0 else [{f"f{i}": 1, "h": [1], "at": "12:30"}]
     return [o]
 
 
@@ -124,6 +128,11 @@ def _judge(prog, b, fw, kw, case, samples):
     root = prog.mod.__dict__.get("Root")
     if not isinstance(root, type):
         return [("root_class_missing", str(names))]
+    if case["mode"] == "nested_field":
+        root = vars(root).get("Inner")
+        if not isinstance(root, type):
+            return [("nested_class_missing", str(names))]
+        samples = [samples[0]["inner"]]
     try:
         table = program.field_table(root, fw, meta_on=bool(kw.get("meta")))
     except Exception as e:
@@ -142,7 +151,7 @@ def _judge(prog, b, fw, kw, case, samples):
         for k in keys:
             if k not in by_key:
                 out.append(("original_key_not_attached", f"key {k!r}: fields {[(f.name, f.key) for f in table]}"))
-        if not out and fw in ("pydantic", "sqlmodel") and case["mode"] in ("field", "field_opt"):
+        if not out and fw in ("pydantic", "sqlmodel") and case["mode"] in ("field", "field_opt", "nested_field"):
             try:
                 inst = root.parse_obj(samples[0])
                 for k, v in samples[0].items():
@@ -172,8 +181,8 @@ def execute(case):
             tag = fam + ("" if uni else "+nouni")
             found = []
             try:
-                b = pipeline.build(samples, types=pipeline.DEFAULT_TYPES)
-                text = pipeline.render(b.reg, fw, "flat", **kk)
+                b = pipeline.build(samples, types=pipeline.ALL_TYPES)
+                text = pipeline.render(b.reg, fw, "nested" if case["mode"] == "nested_field" else "flat", **kk)
                 execs += 1
                 with program.Program(text, fw) as prog:
                     found = _judge(prog, b, fw, kk, case, samples)
